@@ -179,7 +179,7 @@ func grpcStatusExtra(t *tr) string {
 	b.WriteString("  " + def + "\n\n")
 
 	// ---- 2. netsample constants and getErrno's shape
-	ns := load("github.com/yandex/pandora/core/aggregator/netsample")
+	ns := grpcstatusLoad("github.com/yandex/pandora/core/aggregator/netsample")
 	for _, c := range [][2]string{{"ProtoCodeError", "protoCodeError"}, {"DiscardedShootCodeError", "discardedShootCodeError"}} {
 		if v, ok := gsPkgConst(t, ns, c[0]); ok {
 			b.WriteString(fmt.Sprintf("/-- `netsample.%s` -/\ndef %s : Nat := %s\n\n", c[0], c[1], constant.ToInt(v).ExactString()))
@@ -278,7 +278,7 @@ func grpcStatusExtra(t *tr) string {
 
 	// ---- 3. EmptyTag of both http guns
 	for _, c := range [][2]string{{"github.com/yandex/pandora/components/guns/http", "emptyTag"}, {"github.com/yandex/pandora/components/guns/http_scenario", "scenarioEmptyTag"}} {
-		hp := load(c[0])
+		hp := grpcstatusLoad(c[0])
 		if v, ok := gsPkgConst(t, hp, "EmptyTag"); ok {
 			b.WriteString(fmt.Sprintf("/-- `EmptyTag` of %s -/\ndef %s : String := %q\n\n", c[0], c[1], constant.StringVal(v)))
 		}
